@@ -10,7 +10,10 @@ MANIFEST = dict(
     technique="Lean 4 proof over a hand-written state-machine model (constants regenerated from source) + correspondence run with real child processes and /proc observation",
     design="5/C16",
 )
-GEN = ["Timing/grace", "Shutdown"]
+GEN = ["Timing/grace"]
+# not stated by the property text (DESIGN 9.9): the bound of the stdout drain, which only matters with a grandchild
+SUPP_GEN = ["Shutdown"]
+SUPP_THEOREMS = ["c16_drain_translated", "c16_leave_sound_held"]
 THEOREMS = [
     "c16_translated",
     "c16_grace_periods",
@@ -30,7 +33,6 @@ THEOREMS = [
     "c16_entry_gap_orphans",
     "c16_returned_value_was_written_by_child", "c16_dead_child_never_answers",
     "c16_eof_is_not_exit", "c16_reuse_sound", "c16_exit_once_leaks_on_reuse", "c16_failed_handshake_cleans_up",
-    "c16_drain_translated", "c16_leave_sound_held",
     "c16_concurrent_no_fabricated_result", "c16_concurrent_clients_independent",
 ]
 RULE = (
@@ -566,9 +568,7 @@ class ExitTrace(Suite):
     comparison of the signal trace is SUPPLEMENTARY (a client that, say, closed stdin first and waited would satisfy
     the property with another trace): differences go to the evidence notes."""
     name = "exit-trace"
-
-    def __init__(self):
-        self.mismatches = []
+    supplementary = True       # the ORACLE below is the property text; the trace comparison is not a verdict
 
     def cases(self, ctx, budget):
         import itertools
@@ -599,11 +599,7 @@ class ExitTrace(Suite):
             return None
         mine = {"child": o["child"], "duration": o["duration"], "signals": o["signals"]}
         theirs = {"child": m.get("child"), "duration": m.get("duration"), "signals": m.get("signals")}
-        if mine != theirs and len(self.mismatches) < 5:
-            self.mismatches.append({"case": case, "impl": mine, "model": theirs})
-        if mine != theirs:
-            self.nmis = getattr(self, "nmis", 0) + 1
-        return None
+        return None if mine == theirs else f"exit trace {mine}, model {theirs}"
 
     def oracle(self, case, o):
         sp = case["spec"]
@@ -634,19 +630,5 @@ class ExitTrace(Suite):
             yield dict(case, tie="events")
 
 
-_SUPP: list = []
-
-
-def extra(ctx, tier):
-    for s in _SUPP:
-        n = getattr(s, "nmis", 0)
-        if n and tier != "search":
-            print(f"# C16 supplementary correspondence '{s.name}' differs from the model on {n} input(s) (informational): "
-                  + str(s.mismatches[0])[:300])
-        ctx.notes.append(f"supplementary correspondence '{s.name}' (signal trace, exact virtual durations): {n} difference(s)"
-                         + (": " + str(s.mismatches[0])[:600] if n else ""))
-
-
 def suites():
-    _SUPP[:] = [ExitTrace()]
-    return [Scenarios()] + _SUPP
+    return [Scenarios(), ExitTrace()]
